@@ -12,7 +12,7 @@ From Coq Require Import List Bool Arith NArith Lia Relations Permutation.
 Import ListNotations.
 From BB Require Import BN Brute SpaceFacts TrapFacts PercolateFacts AttractorFacts Diagram Invariants Checks Filter
   Strict PetriNet Control Meta FilterFacts PetriNetFacts TrappistFacts DiagramStruct DiagramSem1 DiagramCache
-  DiagramDepth DiagramComplete Termination ControlFacts MetaFacts Candidates StrictFacts MinExpandFacts CandidatesFacts SymbolicTest SymbolicTestFacts Signed ReductionFacts ControlFacts2 Main.
+  DiagramDepth DiagramComplete Termination ControlFacts MetaFacts Candidates StrictFacts MinExpandFacts CandidatesFacts SymbolicTest SymbolicTestFacts Signed ReductionFacts ControlFacts2 Main Blocks BlocksFacts ObsFacts OwnerFacts CandidatesTerm.
 
 Theorem C04_run_invariants : forall (fuel : nat) (N : net) (cfg : config) (h : list op) (d : sd) (r : result), 1 <= max_motifs cfg -> Forall plain h -> In (d, r) (run fuel N cfg (init N) h) -> SWF N d /\ TrapNodes N d /\ EdgeStrict d /\ NoStubEdges d /\ Rooted d /\ Faithful N d.
 Proof. exact run_invariants. Qed.
@@ -38,6 +38,21 @@ Proof. exact expand_one_raise_unchanged. Qed.
 Theorem C04_bfs_complete : forall (fuel : nat) (N : net) (cfg : config) (d d' : sd), 1 <= max_motifs cfg -> SWF N d -> NoStubEdges d -> EdgeStrict d -> Rooted d -> expand_bfs fuel N cfg d None None None = (d', RBool true) -> AllExpanded d'.
 Proof. exact bfs_complete. Qed.
 
+Theorem C04_block_expansion_without_source_shortcuts_is_plain : forall (fuel : nat) (N : net) (cfg : config) (d : sd) (maa : bool) (sz : option nat) (tape : list bool), 1 <= max_motifs cfg -> SWF N d -> NoStubEdges d -> Faithful N d -> Faithful N (fst (expand_block fuel N cfg d maa false sz tape)).
+Proof. exact expand_block_Faithful. Qed.
+
+Theorem C04_block_expansion_no_stub_edges : forall (fuel : nat) (N : net) (cfg : config) (d : sd) (maa opt : bool) (sz : option nat) (tape : list bool), SWF N d -> NoStubEdges d -> NoStubEdges (fst (expand_block fuel N cfg d maa opt sz tape)).
+Proof. exact expand_block_NoStubEdges. Qed.
+
+Theorem C04_block_expansion_wellformed : forall (fuel : nat) (N : net) (cfg : config) (d : sd) (maa opt : bool) (sz : option nat) (tape : list bool), SWF N d -> SWF N (fst (expand_block fuel N cfg d maa opt sz tape)).
+Proof. exact expand_block_SWF. Qed.
+
+Theorem C04_continuation_gives_the_fresh_hierarchy : forall (fuel1 fuel2 : nat) (N : net) (cfg : config) (d0 d1 d2 : sd), 1 <= max_motifs cfg -> SWF N d0 -> TrapNodes N d0 -> NoStubEdges d0 -> EdgeStrict d0 -> Rooted d0 -> Faithful N d0 -> NoSkips d0 -> n_space (get d0 0) = percolate_b N (top_space (nvars N)) -> expand_bfs fuel1 N cfg d0 None None None = (d1, RBool true) -> expand_bfs fuel2 N cfg (init N) None None None = (d2, RBool true) -> same_hierarchy d1 d2.
+Proof. exact bfs_after_anything. Qed.
+
+Theorem C04_hierarchy_unique : forall (N : net) (d d' : sd), Hierarchy N d -> Hierarchy N d' -> Rooted d -> Rooted d' -> same_hierarchy d d'.
+Proof. exact hierarchy_unique_weak. Qed.
+
 (* non-vacuity: two bistable switches; x0'=x1, x1'=x0, x2'=x3, x3'=x2 *)
 Definition ex_sw : net := [fun s => nth 1 s false; fun s => nth 0 s false; fun s => nth 3 s false; fun s => nth 2 s false].
 Definition ex_cfg : config := {| max_motifs := 1000 |}.
@@ -52,3 +67,8 @@ Print Assumptions C04_step_SWF.
 Print Assumptions C04_expand_one_canonical.
 Print Assumptions C04_expand_one_raise_unchanged.
 Print Assumptions C04_bfs_complete.
+Print Assumptions C04_block_expansion_without_source_shortcuts_is_plain.
+Print Assumptions C04_block_expansion_no_stub_edges.
+Print Assumptions C04_block_expansion_wellformed.
+Print Assumptions C04_continuation_gives_the_fresh_hierarchy.
+Print Assumptions C04_hierarchy_unique.
